@@ -204,6 +204,8 @@ def run(ctx: core.Ctx):
 
     from .. import strided
     strided.probe(ctx, "a non-contiguous view of an argument gives exactly the result of its contiguous copy (the kernel reads the cells it was given)", only=['rolling_sum', 'mean_grp'])
+    from .. import accessor_args
+    accessor_args.nodata_precedence(ctx, ['rolling.sum', 'mean_grp'])
     # ---- accessor level, histories: the nodata attribute is read at each call (a corrected attribute on the SAME object takes effect)
     for nd_first, nd_then in ((0, -9999), (-9999, 0), (255, -9999)):
         series = np.array([4, nd_then, nd_first, 7, 3, nd_then, nd_then, 1, 9, nd_first], dtype="int16")
